@@ -26,7 +26,8 @@ import traceback
 
 VERIF = os.path.dirname(os.path.dirname(os.path.abspath(__file__)))
 LEAN_DIR = os.path.join(VERIF, "lean")
-DRIVER = os.path.join(LEAN_DIR, ".lake", "build", "bin", "wzdriver")
+def driver_path(prop):
+    return os.path.join(LEAN_DIR, ".lake", "build", "bin", "drv_" + prop.lower())
 REPO = os.environ.get("WZ_REPO", "/repo")
 ALLOWED_AXIOMS = {"propext", "Classical.choice", "Quot.sound"}
 
@@ -132,8 +133,9 @@ class Stream:
 
 
 class Driver:
-    def __init__(self):
-        self.ok = os.path.exists(DRIVER)
+    def __init__(self, prop):
+        self.path = driver_path(prop)
+        self.ok = os.path.exists(self.path)
 
     def batch(self, lines):
         if not lines:
@@ -141,7 +143,7 @@ class Driver:
         if not self.ok:
             raise RuntimeError("driver not built")
         data = "\n".join(lines) + "\n"
-        p = subprocess.run([DRIVER], input=data.encode(), stdout=subprocess.PIPE, stderr=subprocess.PIPE, timeout=1800)
+        p = subprocess.run([self.path], input=data.encode(), stdout=subprocess.PIPE, stderr=subprocess.PIPE, timeout=1800)
         outs = p.stdout.decode().split("\n")
         if outs and outs[-1] == "":
             outs.pop()
@@ -238,7 +240,7 @@ def transitive_local_imports(mod, seen=None):
     return seen
 
 
-def lean_obligations(modules, log):
+def lean_obligations(modules, log, prop):
     """build + audit. returns dict(obligations, discharged, broken=[names], build_ok, detail)"""
     res = {"obligations": 0, "discharged": 0, "broken": [], "build_ok": False, "theorems": [], "axioms": {}, "detail": ""}
     names = []
@@ -261,13 +263,14 @@ def lean_obligations(modules, log):
         t0 = time.time()
         # the driver does not depend on Props/: build it first so that the correspondence can
         # still run when a proof obligation is broken
-        rc, out = sh(["lake", "build", "wzdriver"], cwd=LEAN_DIR)
+        drv = "drv_" + prop.lower()
+        rc, out = sh(["lake", "build", drv], cwd=LEAN_DIR)
         res["driver_ok"] = rc == 0
         if rc != 0:
-            log("lake build wzdriver failed")
+            log(f"lake build {drv} failed")
             res["detail"] = out[-3000:]
         rc, out = sh(["lake", "build", *modules], cwd=LEAN_DIR)
-        log(f"lake build wzdriver {' '.join(modules)}: rc={rc} ({time.time()-t0:.1f}s)")
+        log(f"lake build {drv} {' '.join(modules)}: rc={rc} ({time.time()-t0:.1f}s)")
         if rc != 0:
             res["detail"] = out[-6000:]
             # try the modules without the driver to see which theorems fail
@@ -450,12 +453,12 @@ def main(check: Check, argv):
             lean["broken"] = ["<extract> " + out[-2000:]]
             lean["obligations"] = 1
         else:
-            lean = lean_obligations(check.modules, log)
+            lean = lean_obligations(check.modules, log, prop)
         broken = lean["broken"]
         log(f"obligations={lean['obligations']} discharged={lean['discharged']} broken={len(broken)}")
         for b in broken:
             log(f"  BROKEN: {b}")
-    driver = Driver()
+    driver = Driver(prop)
     model_ok = (lean.get("driver_ok", False) or args.no_lean) and driver.ok
 
     # 4 correspondence + oracle
@@ -580,7 +583,7 @@ def main(check: Check, argv):
             "obligations": max(lean["obligations"], 1),
             "discharged": lean["discharged"],
             "discharged_count": lean["discharged"],
-            "checker_cmd": f"cd lean && lake build {' '.join(check.modules)} wzdriver && lake env lean <#print axioms of every theorem>",
+            "checker_cmd": f"cd lean && lake build drv_{prop.lower()} {' '.join(check.modules)} && lake env lean <file with #print axioms for every theorem of those modules>",
             "trusted_base": [
                 "Lean 4.33.0 kernel",
                 "axioms allowed: propext, Classical.choice, Quot.sound (audited with #print axioms on every theorem each run)",
@@ -631,7 +634,7 @@ def _corpus_files(prop, stream):
 def replay(check, path, log):
     rep = json.load(open(path))
     known, _ = load_known(check.prop)
-    driver = Driver()
+    driver = Driver(check.prop)
     bad = 0
     items = [(v["stream"], v["case"]) for v in rep.get("violations", [])] + [(d["stream"], d["case"]) for d in rep.get("disagreements", [])]
     if "case" in rep and "stream" in rep:
